@@ -369,8 +369,10 @@ def k_swap_rows(recv):
         _, pa, pb, n, la, lb = sw[0]
         lo = f"(ite (< {r1} {r2}) {r1} {r2})"
         hi = f"(ite (< {r1} {r2}) {r2} {r1})"
-        return (f"(and {inr} (distinct {r1} {r2}) (= {n} {C}) (= {pa} (* {lo} {S})) (= {pb} (* {hi} {S})) "
-                f"(<= (+ {pb} {C}) {L}) {no_ub(events)})")
+        # the two ranges are the two rows, in either order
+        return (f"(and {inr} (distinct {r1} {r2}) (= {n} {C}) "
+                f"(or (and (= {pa} (* {lo} {S})) (= {pb} (* {hi} {S}))) (and (= {pa} (* {hi} {S})) (= {pb} (* {lo} {S})))) "
+                f"(<= (+ (* {hi} {S}) {C}) {L}) {no_ub(events)})")
 
     return Kernel(f"swap_rows_{recv}", "C13", find, build, post,
                   f"swap_rows on {recv}: returns iff both rows are in range; exchanges exactly num_cols cells at r1*stride and r2*stride",
